@@ -4,7 +4,7 @@
    evaluated per case by the correspondence check (Run/C08.v, harness/props/c08.py). *)
 From Coq Require Import Reals Lra List.
 From Coquelicot Require Import Coquelicot.
-From PB Require Import Ops CLin Model.Trainers Model.Posterior Model.EM Proofs.Posterior Proofs.Trainers Proofs.EM.
+From PB Require Import Ops CLin Model.Trainers Model.Posterior Model.EM Model.GMMLoop Proofs.Posterior Proofs.Trainers Proofs.EM.
 Open Scope R_scope.
 
 (* an integer saliency s_n acts exactly like repeating observation n s_n times, for every weighted sum ... *)
@@ -100,6 +100,14 @@ Theorem C08_fit_is_alternation (Theta Gamma : Type) (E : Theta -> Gamma) (M : Ga
   ((1 <= n)%nat -> fit E M (S n) g0 = M (E (fit E M n g0))).
 Proof. split. exact (fit_is_alternation Theta Gamma E M n g0). exact (fit_succ Theta Gamma E M n g0). Qed.
 Print Assumptions C08_fit_is_alternation.
+
+(* concrete instance without any oracle: the whole diagonal-covariance GMM fit of Model/GMMLoop.v (which the
+   correspondence check runs for n iterations and compares with GMMTrainer.fit(..., iterations=n)) is that alternation *)
+Theorem C08_gmm_fit_is_alternation (K' D N : nat) (tiny tinyw pi2 : R) (y : nat -> nat -> R) (n : nat) (g0 : list (list R)) :
+  gmm_fit RO K' D N tiny tinyw pi2 y (S n) g0
+  = Nat.iter n (fun t => gmm_M RO K' D N tiny tinyw y (gmm_E RO K' D N tiny pi2 y t)) (gmm_M RO K' D N tiny tinyw y g0).
+Proof. exact (fit_is_alternation _ _ (gmm_E RO K' D N tiny pi2 y) (gmm_M RO K' D N tiny tinyw y) n g0). Qed.
+Print Assumptions C08_gmm_fit_is_alternation.
 
 Example C08_hypotheses_satisfiable :
   let s := fun n : nat => match n with O => 2 | _ => 1 end in / 1000 <= rsum 3 s /\ (forall n, (n < 3)%nat -> 0 <= s n).
